@@ -639,6 +639,30 @@ def simulate_family(rep, family, seed, num, compare, devsets=(), tag=None, min_s
     return recs
 
 
+def feature_signature(doc):
+    """which kinds of node (with their distinguishing options) a document contains"""
+    feats = set()
+
+    def walk(nodes, inside):
+        for n in nodes:
+            k = n["k"]
+            f = k
+            if k == "loop":
+                f += ":" + n["form"] + ":" + n["cond"]["t"] + (":lv" if n["lv"] != "-" else "") + (":idx" if n["rd"] != "-" else "")
+            elif k == "if":
+                f += ":" + n["cond"]["t"]
+            elif k == "leaf":
+                f += (":ref" if n["ref"] > 0 else ":prev" if n["ref"] < 0 else "") + (":rd" if n["rd"] != "-" else "") + (":rnd" if n["rnd"] else "")
+            elif k == "var":
+                f += ":" + "+".join(sorted(e["t"] for _, e in n["asg"]))
+            elif k in ("g", "reuse"):
+                f += (":loc" if n["loc"] else "") + (":rd" if n["rd"] != "-" else "") + (":ref" if n["ref"] > 0 else "")
+            feats.add(f + ("@" + inside if inside in ("specs", "loop", "g") else ""))
+            walk(n["ch"], k)
+    walk(doc, "")
+    return ",".join(sorted(feats))
+
+
 def family_check(rep, family, tier, seed, compare, over_quick, over_thorough, devsets=(), sample_quick=2500,
                  sample_thorough=40000, tag=None, trace_budget=None, need_outcomes=()):
     rnd = random.Random(seed)
@@ -657,10 +681,11 @@ def family_check(rep, family, tier, seed, compare, over_quick, over_thorough, de
     limit = sample_thorough if tier == "thorough" else sample_quick
     exhaustive = len(recs) <= limit
     if not exhaustive:
-        # stratified by outcome class so rare classes are not drowned
+        # stratified by outcome class AND by which constructs the document combines, so that
+        # neither rare outcomes nor rare combinations are drowned by the common ones
         groups = {}
         for x in recs:
-            groups.setdefault(x["res"] + ("/retried" if x["passes"] else ""), []).append(x)
+            groups.setdefault(x["res"] + ("/retried" if x["passes"] else "") + "|" + feature_signature(x["doc"]), []).append(x)
         share = max(1, limit // len(groups))
         picked = []
         rest = []
